@@ -183,8 +183,8 @@ class Parameter(AnnotatedValue):
             elif (
                 isinstance(value, AnnotatedValue)
                 and value.kind == ParamType.FLOAT
-                and isinstance(getattr(value, "value", None), float)
-                and value.value.is_integer()
+                and isinstance(_constant_value(value), float)
+                and _constant_value(value).is_integer()
             ):
                 pass
             else:
@@ -210,6 +210,14 @@ class Parameter(AnnotatedValue):
             return Register(name, alias_from=self, alias_slice=key)
         else:
             return NamedQubit(name, self, key)
+
+
+def _constant_value(value):
+    """Return the number a constant stands for, following constants defined
+    by other constants, or None if the value has no fixed number."""
+    while isinstance(value, AnnotatedValue):
+        value = getattr(value, "value", None)
+    return value
 
 
 def make_item_name(array, index):
